@@ -12,6 +12,7 @@ CONSTANTS
   MaxPolls = 1
   FixH13 = TRUE
   FixRevertVerify = FALSE
+  FixUnderflow = TRUE
 INIT Init
 NEXT Next
 INVARIANTS TypeOK LocalIsSourceBlocks ReorgExact
